@@ -453,9 +453,11 @@ def snapshot(root):
     return snap
 
 
-def run_real(binary, argv, root, files, prepare=None, timeout=10):
+def run_real(binary, argv, root, files, prepare=None, timeout=10, stdout_to=None, stderr_to=None):
     """materialise `files` under root, apply `prepare(root)` (fault set-up), run, and compare the directory before/after.
-    Returns dict(rc, signal, timeout, stdout, stderr, created, modified, deleted)."""
+    argv elements may be bytes (arguments that are not valid UTF-8).  stdout_to / stderr_to: None (captured), "full"
+    (/dev/full: every write fails with ENOSPC) or "epipe" (a pipe whose read end is already closed).
+    Returns dict(rc, timeout, stdout, stderr, created, modified, deleted)."""
     shutil.rmtree(root, ignore_errors=True)
     os.makedirs(root)
     for n, b in files.items():
@@ -470,12 +472,32 @@ def run_real(binary, argv, root, files, prepare=None, timeout=10):
         prepare(root)
     before = snapshot(root)
     res = {"timeout": False}
+    opened = []
+
+    def sink(kind):
+        if kind is None:
+            return subprocess.PIPE
+        if kind == "full":
+            f = open("/dev/full", "wb")
+            opened.append(f)
+            return f
+        r, w = os.pipe()
+        os.close(r)
+        f = os.fdopen(w, "wb")
+        opened.append(f)
+        return f
     try:
-        pr = subprocess.run([binary] + argv[1:], cwd=root, stdout=subprocess.PIPE, stderr=subprocess.PIPE, timeout=timeout,
-                            stdin=subprocess.DEVNULL)
-        res.update(rc=pr.returncode, stdout=pr.stdout, stderr=pr.stderr)
+        pr = subprocess.run([binary.encode() if any(isinstance(a, bytes) for a in argv) else binary] + list(argv[1:]), cwd=root,
+                            stdout=sink(stdout_to), stderr=sink(stderr_to), timeout=timeout, stdin=subprocess.DEVNULL)
+        res.update(rc=pr.returncode, stdout=pr.stdout or b"", stderr=pr.stderr or b"")
     except subprocess.TimeoutExpired as e:
         res.update(rc=None, stdout=e.stdout or b"", stderr=e.stderr or b"", timeout=True)
+    finally:
+        for f in opened:
+            try:
+                f.close()
+            except OSError:
+                pass
     # undo permission faults so that the tree can be read and removed
     for dp, dn, fs in os.walk(root):
         for x in dn + fs:
@@ -491,8 +513,9 @@ def run_real(binary, argv, root, files, prepare=None, timeout=10):
     return res
 
 
-def verdict_real(res, cmd, unwritable=(), files=None):
-    """the property on one run of the real binary.  unwritable: output names made unwritable on purpose."""
+def verdict_real(res, cmd, unwritable=(), files=None, stdout_lost=False, stderr_lost=False):
+    """the property on one run of the real binary.  unwritable: output names made unwritable on purpose.
+    stdout_lost / stderr_lost: that stream was made unwritable, nothing of it can be inspected."""
     if res["timeout"]:
         return "no normal end within 10 s"
     rc = res["rc"]
@@ -509,11 +532,15 @@ def verdict_real(res, cmd, unwritable=(), files=None):
     touched = [x for x in res["created"] + res["modified"] if not x.endswith("/")]
     if res["deleted"]:
         return "files deleted: %r" % res["deleted"]
+    if stderr_lost:
+        nerr = 1 if rc == 1 else 0          # the diagnostics cannot be seen: only status and files are judged
     if rc == 0:
         if nerr:
             return "exit status 0 with %d error diagnostic(s)" % nerr
         if cmd.help or cmd.version:
             return "help/version touched %r" % touched if touched else None
+        if getattr(cmd, "any_outcome", False):
+            return None                 # which files a success writes is not predicted for this family
         exp = sorted(set(os.path.normpath(x) for x in cmd.expected_writes()))
         if sorted(touched) != exp:
             # a requested output identical to what was there before shows as untouched: only new names are compared strictly
@@ -534,7 +561,7 @@ def verdict_real(res, cmd, unwritable=(), files=None):
         first_bad = min(exp.index(b) for b in bad if b in exp) if any(b in exp for b in bad) else 0
         if not all(exp.index(x) < first_bad for x in touched):
             return "exit status 1, output %r written after the unwritable one" % touched
-    if not cmd.debug_iters:
+    if not cmd.debug_iters and not stdout_lost:
         printed_before_write_fault = bool(unwritable) and any(g["print"] for g in cmd.groups)
         lines = out.split(b"\n")
         if cmd.quiet and out.strip() and not printed_before_write_fault:
